@@ -157,7 +157,7 @@ def rot_rules(chk):
         calls = [e for e in r.events("call", fs.qualname) if e.callee == M + "combine_at_angle"]
         if not calls:
             chk.ob("R-ROT-SCAN", cc, "the scan calls combine_at_angle", False, derived="no call", loc=fs.loc(),
-                   inconclusive=any(e.kind == "unmodelled" for e in r.I.events))      # something on the path is not followed (a lazy map ...)
+                   inconclusive=True)      # the combination is formed some other way on this path (a fast path on the raw series ...): not located
             continue
         b = calls[-1].bound
         expect(chk, "R-ROT-SCAN", cc + "{angle}", b[ang], tags_has=["loopvar", "linspace", "p:angle_off_ns"], loc=calls[-1].loc)
@@ -181,8 +181,11 @@ def rot_rules(chk):
                                                    for e in apps))
         elif label == "callable":
             okv = bool(apps) and all("user-fn" in e.value.tags and "arg-obj" in e.value.tags for e in apps)
+            # located wrong: some appended value that does not come from the user's function at all; values that come from it on some path and
+            # from elsewhere on another (a measure selected once before the loop, joined over its alternatives) are not located
             chk.ob("R-ROT-SCAN", cc + "{measure}", "the appended value is func(new_sig) (or its last element)", okv,
-                   derived="%d append(s)" % len(apps), loc=apps[0].loc if apps else fs.loc())
+                   derived="%d append(s)" % len(apps), loc=apps[0].loc if apps else fs.loc(),
+                   inconclusive=(not apps) or (not okv and all("user-fn" in e.value.tags for e in apps)) or any(e.value.indef for e in apps))
         rt = r.ret
         chk.ob("R-ROT-SCAN", cc + "{result}", "returns (angles, values)", rt.items is not None and len(rt.items) == 2 and "linspace" in rt.items[0].tags,
                derived="items %s" % (None if rt.items is None else len(rt.items)), loc=fs.loc())
@@ -519,7 +522,12 @@ def lag_rules(chk, fi):
         pads = [n for n in ast.walk(lp) if isinstance(n, ast.Subscript) and isinstance(n.value, ast.Name) and isinstance(n.slice, ast.Slice)
                 and not any(n in list(ast.walk(il)) for il in inner) and _roots(n.slice) & lagvars]
         slave = {n.value.id for n in pads}
-        if len(slave) == 1:
+        known_ = {x for rr in roles for x in rr if x is not None}
+        if len(slave) == 1 and next(iter(slave)) not in known_:
+            # the padding is done on an array that is neither of the two compared in the lag loops (a helper's own name for it): the slave is not located
+            chk.ob("R-LAGSEARCH", c + "{slave}", "the padded array identifies the slave", False, derived="padded `%s`, compared %s" %
+                   (next(iter(slave)), sorted(known_)), loc=fi.loc(lp), inconclusive=True)
+        elif len(slave) == 1:
             sl = next(iter(slave))
             for inf, (sh, fx) in zip(infos, roles):
                 want = norm.poly(ast.parse(inf["iv"] if sh == sl else "-" + inf["iv"], mode="eval").body).canon()
